@@ -343,6 +343,50 @@ fn scenario(ctx: &Ctx, idx: u64, rep: &mut Report) {
     let _ = (&rig.o2c, &rig.odk, &rig.odk_port);
 }
 
+/// One serial bus, one bridge, one virtual bus: 70 000 messages down both paths (more than any 16-bit counter holds).
+/// Unpaced kinds only, so that it takes seconds: state queries, hellos to present and absent signs, chunk counts, unknown
+/// frames and operation requests (which move the signs through the states an unconfigured sign can reach).
+fn marathon(rep: &mut Report) {
+    use flipdot::SignBus;
+    let addrs = [3u16, 0x80];
+    let autos = [false, true];
+    let rig = build(&addrs, &autos);
+    let mut direct = population(&addrs, &autos);
+    let mut rng = crate::util::Rng::new(0xC17);
+    for i in 0..70_000usize {
+        let m = match i % 6 {
+            0 => RefMsg::Query(addrs[(i / 6) % 2]),
+            1 => RefMsg::Hello(if i % 4 == 1 { 0x0042 } else { addrs[(i / 6) % 2] }),
+            2 => RefMsg::Count(i as u16),
+            3 => RefMsg::Unknown { addr: i as u16, ty: 0x7E, data: rng.bytes_upto(3) },
+            4 => RefMsg::Request(addrs[(i / 6) % 2], rng.usize(N_OPS)),
+            _ => RefMsg::Goodbye(if i % 5 == 0 { addrs[(i / 6) % 2] } else { 0x0042 }),
+        };
+        let a = catch(|| rig.serial.borrow_mut().process_message(refs::from_ref(&m)).map(|r| r.map(|x| refs::to_ref(&x))).map_err(|e| e.to_string()));
+        let b = catch(|| direct.process_message(refs::from_ref(&m)).map(|r| r.map(|x| refs::to_ref(&x))).map_err(|e| e.to_string()));
+        // (a request nobody answers is "no reply" on the bus and a read that times out on the wire: both mean the same)
+        let unanswered = matches!(m, RefMsg::Hello(_) | RefMsg::Query(_) | RefMsg::Request(..)) && matches!((&a, &b), (Ok(Err(_)), Ok(Ok(None))));
+        let same = unanswered || matches!((&a, &b), (Ok(x), Ok(y)) if x == y);
+        let states_agree = i % 64 != 0 || observe_all(&rig.vbus.borrow().inner, 2) == observe_all(&direct, 2);
+        if !same || !states_agree {
+            rep.violation(MON_T, "long_run_differs", &format!("marathon-{}", i), format!("message #{} ({}) of 70 000 sent through one serial bus and bridge: wire {:?} / direct {:?}{}", i, m.show(), a.as_ref().map_err(|p| p.msg.clone()), b.as_ref().map_err(|p| p.msg.clone()), if states_agree { "" } else { "; sign states differ" }), J::obj(vec![("message_index", J::us(i)), ("message", J::s(m.show()))]));
+            return;
+        }
+        rep.count("marathon_messages_on_both_paths");
+        if i % 4096 == 4095 {
+            let pumps: Vec<Pump> = rig.pumps.borrow_mut().drain(..).collect();
+            check_pumps(&pumps, rep, "marathon");
+            // the doubles' own records are not part of what is being tested: keep them small
+            for st in [&rig.ctl_port, &rig.odk_port] {
+                let mut s = st.borrow_mut();
+                s.log.clear();
+                s.written.clear();
+            }
+            rig.vbus.borrow_mut().log.clear();
+        }
+    }
+}
+
 /// Raw lines injected at the bridge: recognised codes, unknown frames, short data chunks, lower case, and every
 /// single-symbol perturbation of one frame.
 fn raw_injection(rep: &mut Report) {
@@ -481,6 +525,7 @@ pub fn run(ctx: &Ctx) -> Outcome {
         if i == n {
             raw_injection(rep);
             bridge_faults(rep);
+            marathon(rep);
         } else {
             scenario(ctx, i as u64, rep);
         }
@@ -497,6 +542,7 @@ pub fn run(ctx: &Ctx) -> Outcome {
         floor("undecodable lines at the bridge", report.get("bridge_undecodable_lines") > 100, report.get("bridge_undecodable_lines")),
         floor("I/O faults at the bridge's own port (read fault at every byte, write fault at every call)", report.get("bridge_read_faults") > 100 && report.get("bridge_write_faults") > 50, report.get("bridge_write_faults")),
         floor("scenarios over a line whose writes block longer than the pacing pause", report.get("scenarios_over_a_slow_line") >= 20, report.get("scenarios_over_a_slow_line")),
+        floor("70 000 messages through one serial bus and one bridge", report.get("marathon_messages_on_both_paths") == 70_000, report.get("marathon_messages_on_both_paths")),
         floor("bridge pumps checked", report.get("bridge_pumps_checked") > 1000, report.get("bridge_pumps_checked")),
     ];
     Outcome {
